@@ -426,12 +426,3 @@ func c01Process(d *vCtx) error {
 	})
 }
 
-func e2eDropEnv(env []string, key string) []string {
-	var res []string
-	for _, e := range env {
-		if !strings.HasPrefix(e, key+"=") {
-			res = append(res, e)
-		}
-	}
-	return res
-}
